@@ -6,5 +6,6 @@ CONSTANTS
   Eps = 1
   Tol = 2
   MaxRows = 2
+  Retry = TRUE
 CONSTRAINT Report
 CHECK_DEADLOCK FALSE
